@@ -226,10 +226,13 @@ def check_case(case):
         x = build(obj)
         p = svg.Path(svg.Move(None, svg.Point(-3, -3)), svg.Line(svg.Point(-3, -3), svg.Point(-5, -4)), svg.Move(None, svg.Point(x.start)), x)
         sp = p.subpath(1)
+        before = [repr(g) for g in p]
         for m in ms:
             q = sp * m
             if q is sp:
                 raise AssertionError("* returned its operand")
+            if [repr(g) for g in p] != before:
+                raise AssertionError("subpath * M changed the path the subpath is a view of")
             sp = q
         segs = list(sp)
         if len(segs) != 2:
